@@ -164,7 +164,26 @@ def api_source_catalog(sc, D, E, U=None):
             out[f'plain:{n}:lw{lw}'] = getattr(c, n)
         out[f'flux:circ_phot:lw{lw}'] = c.circular_photometry(3.0)[0]
         out[f'plain:fluxfrac:lw{lw}'] = c.fluxfrac_radius(0.5)
+    # a background map in the same representation as the data (a smooth integer-valued ramp)
+    ny_, nx_ = np.shape(D)
+    ramp = (np.add.outer(np.arange(ny_), 2 * np.arange(nx_)) % 7).astype(float)
+    raw = getattr(D, 'value', D)
+    bkg = ramp.astype(np.asarray(np.ma.getdata(raw)).dtype)
+    if isinstance(raw, np.ma.MaskedArray):
+        bkg = np.ma.MaskedArray(bkg, mask=np.zeros(bkg.shape, bool))
+    if U is not None:
+        bkg = bkg * U
+    cb = SourceCatalog(D, seg, error=E, mask=sc['mask'], background=bkg)
+    for n in ('background_sum', 'background_mean', 'background_centroid'):
+        out[f'flux:{n}'] = getattr(cb, n)
     return out
+
+
+def api_local_background(sc, D, E, U=None):
+    from photutils.background import LocalBackground
+    xs, ys = [p[0] for p in sc['pos']], [p[1] for p in sc['pos']]
+    lb = LocalBackground(4.0, 8.0)
+    return {'flux:local_bkg': lb(D, xs, ys, mask=sc['mask']), 'flux:local_bkg_single': np.atleast_1d(lb(D, xs[0], ys[0]))}
 
 
 def api_find_peaks(sc, D, E, U=None):
@@ -297,7 +316,7 @@ def apis():
             ('IRAFStarFinder', _finder(IRAFStarFinder, fwhm=3.0), False), ('StarFinder', _finder(StarFinder, kernel=kern), False),
             ('centroids', api_centroids, False), ('profiles', api_profiles, False), ('calc_total_error', api_total_error, False),
             ('PSFPhotometry', api_psf_photometry, True), ('data_properties', api_data_properties, False),
-            ('background estimators', api_bkg_estimators, False), ('ApertureMask', api_mask_ops, False), ('_filter_data', api_convolve, False),
+            ('background estimators', api_bkg_estimators, False), ('LocalBackground', api_local_background, False), ('ApertureMask', api_mask_ops, False), ('_filter_data', api_convolve, False),
             ('large-frame statistics', api_large_statistics, False)]
 
 
@@ -421,6 +440,40 @@ def sweep(rep, r, nscenes):
                     rep.count(f'mixed-rejected:{name}')
 
 
+def extreme_scale_float32(rep, r, n):
+    """float32 images in calibrated flux units (scales 2^-75 ~ 3e-23, 2^-72, 2^62): the error propagation must not square float32 values in
+    float32 (squares under/overflow); float32 inputs agree with float64 inputs to float32 precision at every scale"""
+    for _ in range(n):
+        sc = make_scene(r, False)
+        k_ = r.choice([2.0 ** -75, 2.0 ** -72, 2.0 ** 62])
+        scs = dict(sc, data=sc['data'] * k_, error=sc['error'] * k_)
+        for name, fn in (('aperture_photometry', api_aperture_photometry), ('ApertureStats', api_aperture_stats), ('profiles', api_profiles)):
+            rp = {'api': name, 'scale': k_, 'data': scs['data'].tolist(), 'error': scs['error'].tolist(), 'mask': sc['mask'].astype(int).tolist(),
+                  'positions': [list(p) for p in sc['pos']]}
+            try:
+                base = {kk: num(v) for kk, v in call(fn, scs, rep_f64(scs['data']), rep_f64(scs['error'])).items()}
+                got = {kk: num(v) for kk, v in call(fn, scs, rep_f32(scs['data']), rep_f32(scs['error'])).items()}
+            except Exception as e:                              # noqa: BLE001
+                rep.violation(f'representation-raises:{name}:float32-extreme-scale:{type(e).__name__}', f'{name} raises {e!r} at scale {k_:g}', rp)
+                continue
+            rep.case((name, 'f32-extreme', scs['data'].tobytes()), True, kind=f'{name}:float32-extreme-scale')
+            rep.probe_only += 1
+            for kk, bv in base.items():
+                if kk.startswith('plain:') and kk.split(':')[1] in ('gini', 'gaussian_fwhm'):
+                    continue
+                gv = got.get(kk)
+                if bv is None or gv is None:
+                    continue
+                fin = np.isfinite(bv)
+                scl = float(np.max(np.abs(bv[fin]))) if fin.any() else 1.0
+                with np.errstate(invalid='ignore'):
+                    okk = bv.shape == gv.shape and bool(np.all(np.isclose(bv, gv, rtol=1e-3, atol=1e-3 * scl, equal_nan=True)))
+                if not okk:
+                    rep.violation(f'representation-differs:{name}:float32-extreme-scale:{kk.split(":")[1]}',
+                                  f'{name} [{kk}] differs between float64 and float32 inputs at flux scale {k_:g}', rp)
+                    break
+
+
 def nd_variant(name):
     def ap(sc, nd, _E, U=None):
         from photutils.aperture import CircularAperture, EllipticalAnnulus, aperture_photometry
@@ -539,6 +592,7 @@ def run(rep, tier):
     r = rng('C15')
     units_correspondence(rep, r, 120 * scale)
     sweep(rep, r, 4 * scale)
+    extreme_scale_float32(rep, r, 3 * scale)
 
 
 def replay(rep, data):
